@@ -814,6 +814,12 @@ def check_memo_single_producer(ctx, cls, rule="MEMO"):
         base = st.targets[0].value
         if isinstance(base, ast.Attribute) and isinstance(base.value, ast.Name) and base.value.id == "self":
           v = st.value
+          if isinstance(v, ast.Name):
+            # the value the local holds at this store (the assignments that precede it in the enclosing statement lists)
+            from .match import inline_locals_deep
+            v1 = inline_locals_deep(m.node, v, depth=1)
+            if not (isinstance(v1, ast.Name) and v1.id == v.id):
+              v = v1
           if isinstance(v, ast.Name) and len(defs.get(v.id, [])) >= 1:
             cands = {unparse(d.func) if isinstance(d, ast.Call) else unparse(d) for d in defs[v.id] if not (isinstance(d, ast.Subscript) and unparse(d.value) == unparse(base))}
             prod = " | ".join(sorted(cands))
@@ -827,6 +833,20 @@ def check_memo_single_producer(ctx, cls, rule="MEMO"):
     prods = sorted({p for p, _, _ in lst})
     ctx.check(len(prods) == 1, rule, f"{cls.qualname}|self.{d} has a single producer", ctx.where(cls.module, lst[0][2]), f"filled by `{prods[0]}`",
               f"the memo `self.{d}` is filled by different computations ({', '.join('`' + p + '`' for p in prods)}): a key stored by one is read back by the other")
+    # the key names everything the stored value was computed from: a parameter of the method that influences the value
+    # (a getter passed in, a property name) but not the key makes two different requests share an entry
+    from .match import depends_on
+    for prod, m, st in lst:
+      params = [p_ for p_ in m.params if p_ not in ("self", "cls")]
+      if not params:
+        continue
+      key_names = {x.id for x in ast.walk(st.targets[0].slice) if isinstance(x, ast.Name)}
+      val_names = {x.id for x in ast.walk(st.value) if isinstance(x, ast.Name)}
+      influences = [p_ for p_ in params if (depends_on(m.node, p_) & val_names) and not (depends_on(m.node, p_) & key_names)]
+      n += 1
+      ctx.check(not influences, rule, f"{m.qualname}|the key of self.{d} covers what the value depends on", ctx.where(m.module, st), "every parameter behind the value is part of the key",
+                f"`{short(st, 60)}`: the stored value depends on the parameter(s) {influences}, which the key does not include: two calls that differ only there "
+                f"(the same colour as text colour and as background) read each other's entry")
   return n
 
 
@@ -1017,7 +1037,17 @@ def _rounded(e, name: str) -> typing.Optional[str]:
   `int(x * 1000)`): the expression text with the name replaced by a hole; None when e is not such a form of the bare name."""
   if not any(isinstance(n, ast.Name) and n.id == name for n in ast.walk(e)):
     return None
-  if not any(isinstance(c, ast.Call) and unparse(c.func).split(".")[-1] in ("round", "from_seconds", "int", "floor", "ceil") for c in ast.walk(e)):
+  # the serialiser prints ClockTime.from_seconds(x), which rounds to the nearest millisecond (round(x, 3)); truncation
+  # (int / floor of x * 1000) is a different grid: two times that truncate apart can still round together
+  ok = False
+  for c in ast.walk(e):
+    if isinstance(c, ast.Call):
+      fn = unparse(c.func).split(".")[-1]
+      if fn == "from_seconds":
+        ok = True
+      if fn == "round" and len(c.args) == 2 and isinstance(c.args[1], ast.Constant) and c.args[1].value == 3:
+        ok = True
+  if not ok:
     return None
   return unparse(e).replace(name, "_")
 
